@@ -37,6 +37,12 @@ def seg_points(seg):
     return [repr(seg)]
 
 
+def arc_samples(seg):
+    """What an arc draws, independent of which conjugate pair of radii represents its ellipse: centre, three
+    interior points, sweep."""
+    return [pt(seg.center), pt(seg.point(0.25)), pt(seg.point(0.5)), pt(seg.point(0.75)), seg.sweep]
+
+
 def seg_snap(seg):
     return (type(seg).__name__, seg_points(seg))
 
@@ -177,15 +183,21 @@ def _plain(se, v):
 
 def _walk_tree(se, node, skip_ns=None):
     """Document-order walk of the returned tree through its public list structure (what elements()
-    flattens), leaving out every node whose serial is in skip_ns together with everything under it."""
-    yield node
-    if isinstance(node, list) and isinstance(node, se.SVGElement):
-        for child in node:
-            if skip_ns:
-                vals = getattr(child, "values", None) or {}
-                if vals.get("data-n") in skip_ns:
-                    continue
-            yield from _walk_tree(se, child, skip_ns)
+    flattens), leaving out every node whose serial is in skip_ns together with everything under it.
+    Not recursive: returned trees may be deeper than the interpreter's recursion limit."""
+    stack = [iter([node])]
+    while stack:
+        child = next(stack[-1], None)
+        if child is None:
+            stack.pop()
+            continue
+        if skip_ns and len(stack) > 1:
+            vals = getattr(child, "values", None) or {}
+            if vals.get("data-n") in skip_ns:
+                continue
+        yield child
+        if isinstance(child, list) and isinstance(child, se.SVGElement):
+            stack.append(iter(child))
 
 
 def observe_doc(se, svg, keep_path=False, rendered_stroke=False, skip_ns=None):
